@@ -81,6 +81,10 @@ def _const(v):
         return [t] + [_const(x) for x in (v if isinstance(v, tuple) else sorted(v, key=repr))]
     if isinstance(v, bytes) and not PY2:
         return [t, b64e(v)]
+    if isinstance(v, bool) or v is None:
+        return [t, repr(v)]
+    if isinstance(v, int) or (PY2 and isinstance(v, long)):  # noqa: F821
+        return [t, hex(v)]          # repr() of a huge int hits the interpreter's digit limit
     if PY2 and isinstance(v, str):
         return [t, b64e(v)]
     if isinstance(v, text_type):
